@@ -1,5 +1,5 @@
 (* Properties_C18.v — C18: backups hold exactly the pre-patch bytes.  Statements only; proofs in Proofs_World.v. *)
-From PatchV Require Import Base Lines Hunk Options World Driver Proofs_World.
+From PatchV Require Import Base Lines Hunk Options Parser World Driver Proofs_World.
 
 (* the name: prefix + path + suffix per -B / -z, '.orig' appended when neither is given *)
 Theorem backup_name_spec : forall o p,
@@ -7,19 +7,32 @@ Theorem backup_name_spec : forall o p,
 Proof. exact Proofs_World.backup_name_spec. Qed.
 Print Assumptions backup_name_spec.
 
-(* the first backup of a path: an existing target is moved to the backup name as it is (bytes and mode); a target that did
-   not exist yields an empty file *)
-Theorem backup_holds_original : forall o st p w st' w',
+(* the first backup of a path in a run = remember the name, make the directory it goes to (which only adds directories:
+   every entry that was there stays as it was), then [backup_core] *)
+Theorem make_backup_for_shape : forall o st p,
   existsb (str_eqb (backup_name o p)) (backed_up st) = false ->
-  make_backup_for o st p w = (Ok st', w') ->
-  backed_up st' = backup_name o p :: backed_up st /\
+  make_backup_for o st p =
+  (let! _ := ensure_parent_directories (backup_name o p) in
+   backup_core (mkDS (had_failure st) (backup_name o p :: backed_up st) (deferred_writes st) (deferred_removals st) (events st)) p (backup_name o p)).
+Proof. exact Proofs_World.make_backup_for_shape. Qed.
+Print Assumptions make_backup_for_shape.
+
+Theorem ensure_extends : forall p w r w', ensure_parent_directories p w = (r, w') -> extends (fs w) (fs w').
+Proof. exact Proofs_World.ensure_extends. Qed.
+Print Assumptions ensure_extends.
+
+(* backup_core: an existing target is moved to the backup name as it is (bytes and mode); a target that did not exist
+   yields an empty file *)
+Theorem backup_holds_original : forall st' p b w st1 w',
+  backup_core st' p b w = (Ok st1, w') ->
+  st1 = st' /\
   (exists_ (fs w) p = true ->
-     exists n, lookup (fs w) p = Some n /\ lookup (fs w') (backup_name o p) = Some n /\
-               (p <> backup_name o p -> lookup (fs w') p = None)) /\
+     exists n, lookup (fs w) p = Some n /\ lookup (fs w') b = Some n /\
+               (p <> b -> lookup (fs w') p = None)) /\
   (exists_ (fs w) p = false ->
-     match lookup (fs w) (backup_name o p) with
+     match lookup (fs w) b with
      | Some (Sym _) => True
-     | _ => exists mode, lookup (fs w') (backup_name o p) = Some (Reg [] mode)
+     | _ => exists mode, lookup (fs w') b = Some (Reg [] mode)
      end).
 Proof. exact Proofs_World.backup_holds_original. Qed.
 Print Assumptions backup_holds_original.
